@@ -19,6 +19,8 @@ import YarlProofs.C09
   whole string form is ASCII / well-escaped, user and password of EVERY reachable URL — are stated there as
   `C01_headline_…`; the GAPS block below cites them.  Continued again in C01HeadlineMore3.lean (C01 over the closure
   of ALL entry points, `encoded=True` included: C01ReachE.lean, GAPS 5).
+  Continued further in C01HeadlineMore4.lean (headline theorems for the proof modules added after the last refresh:
+  C01More.lean; the GAPS block below cites them).
 -/
 set_option linter.unusedVariables false
 namespace Yarl
@@ -323,6 +325,10 @@ GAPS:
           C01_headline_str_ascii_fails_for_build_scheme); automatic for constructor results
           (C01_headline_scheme_ascii_constructor) and under ASCII with_scheme / build(scheme=) arguments
           (C01_headline_scheme_ascii_reachable).
+    FURTHER (hypothesis (b) weakened) by C01_reachable_netloc_ascii_local, C01_str_ascii_reachable_local (C01More.lean),
+    see C01_headline_str_ascii_reachable_local_oracle (C01HeadlineMore4.lean): `HostOracleAscii` is replaced by the
+    LOCAL `IdnaLocalAscii` on the `host[:port]` text of the constructor / build(authority=) inputs only (vacuous for an
+    ASCII host name); with_host, build(host=) and every other step need no oracle hypothesis — see item 7.
  2. CLOSED by C01_str_well_escaped (C01Str.lean), see C01_headline_percent_escapes_whole_string
     (C01HeadlineMore.lean).  Proved: for every `ReachS`-reachable URL whose scheme contains no '%' and whose
     `host[:port]` text (`hostinfo u.netloc`, what follows the last '@' of the stored netloc) contains no '%',
@@ -334,6 +340,10 @@ GAPS:
     C01_headline_percent_escapes_fails_for_zone_id ('%eth0') and
     C01_headline_percent_escapes_fails_for_lowercased_host_escape ('http://a%3ab/').  What the host guard means in
     accessor terms: GAPS 6.
+    FURTHER by C01_str_outside_host (C01More.lean), see C01_headline_str_outside_host (C01HeadlineMore4.lean): a
+    whole-string statement WITHOUT the host guard — the string form is `pre ++ hostText ++ suf` and every '%' outside
+    the `host[:port]` text starts an upper-case escape (`pre`: when the scheme has no '%'); F-C01-host-percent is
+    confined to `hostText` — see item 6.
  3. CLOSED by C01_userinfo_chars_reachable, C01_userinfo_chars_modifiers, C01_build_userinfo_chars,
     C01_with_user_reads_back, C01_with_password_reads_back (C01Str.lean), see C01_headline_userinfo_chars_reachable
     (raw_user / raw_password of EVERY `ReachS`-reachable URL, cached or lazily parsed),
@@ -343,6 +353,9 @@ GAPS:
     ASCII; with_user(s) reads back as exactly QUOTER(s) without the `UserOK`/`HostOK` hypotheses of C11.  Hypotheses:
     `HostOracleNoAt` (GAPS 7; why: C01_headline_userinfo_fails_for_idna_answer_with_at), `UserinfoOK` of
     `UOp.joinRef` references (model artefact), Python-string arguments.
+    FURTHER by C01_reachable_userinfo_ok_local, C01_userinfo_chars_reachable_local (C01More.lean), see
+    C01_headline_userinfo_chars_reachable_local_oracle (C01HeadlineMore4.lean): `HostOracleNoAt` is replaced by the
+    LOCAL `IdnaLocalNoAt` on the constructor / build(authority=) inputs — see item 7.
  4. CLOSED, as far as it is true, see C01_headline_no_raw_forbidden_chars_userinfo (user and password of every
     `ReachS`-reachable URL: no space, control character, '"<>\^`{|}', literal ':', nothing ≥ 127; from
     C01_userinfo_chars_reachable) and C01_headline_no_raw_forbidden_chars_scheme (the scheme: unconditionally for
@@ -390,6 +403,20 @@ GAPS:
     record of the `Written` shape (what the authority modifiers write) "the host contains no '%'" implies the guard.
     NOT proved: for an ARBITRARY reachable URL (e.g. a constructor result), "raw_host contains no '%'" implies the
     guard.
+    SUPERSEDED (the implication itself stays unproved, it is no longer needed) by C01_str_outside_host,
+    C01_str_outside_host_of_inv, C01_percent_outside_host_positions (C01More.lean), see C01_headline_str_outside_host,
+    C01_headline_percent_outside_host_positions (C01HeadlineMore4.lean).  Proved, for every `ReachS`-reachable URL with
+    NO condition on the host and NO `ZoneAscii`: `str e u = .ok r` gives a cut `r = pre ++ hostText ++ suf` where
+    `hostText = hostinfo N` is the `host[:port]` text of the authority `N` that `str` renders (`N` ends where `suf`
+    begins; `N` is empty, or the stored authority, or — explicit port = the scheme's default, dropped — the re-made one)
+    and contains every character of `raw_host`; OUTSIDE `hostText`: `suf` is `WellEscaped`, ASCII and free of raw
+    space / control / quote / `<>\^`{|}` / DEL unconditionally, `pre` under the corresponding condition on the stored
+    scheme (no '%' / ASCII / visible non-forbidden characters: F-C01-scheme).  So the property's "… never appear
+    outside the host" is proved as stated for the part after the host, and for the part before it up to F-C01-scheme;
+    F-C01-host-percent and F-C01-nonascii-zone live inside `hostText`.  Hypotheses: the LOCAL `IdnaLocalNoAt` on the
+    constructor / build(authority=) inputs (item 7), `UserinfoOK` of `UOp.joinRef` references (model artefact).
+    NOTE: `hostText` is `host[:port]` (what follows the last '@'), so the PORT digits and the brackets of an IP literal
+    are inside it; nothing is stated about the inside of `hostText` here (raw_host: C16 / C17).
  7. NEW (hypotheses of items 1–4 without a discharging theorem).  `HostOracleAscii o` (every answer of
     `idna.encode(…, uts46=True)` / the stdlib "idna" codec is ASCII) and `HostOracleNoAt o` (no answer contains '@') are
     ASSUMPTIONS on the oracle table.  Both hold for `Oracles.empty` (C01_headline_side_conditions_met: every run on
@@ -397,11 +424,60 @@ GAPS:
     from "IDNA maps through NFKC first and the constructor / build(authority=) reject an NFKC form with '@'"
     (C01_headline_idna_answer_with_at_now_rejected shows the real answers for 'a＠b' are rejected since fix c2c2803) —
     neither argument is inside the model, which does not tie the `nfkc` table to the IDNA tables.
+    MODEL UPDATE (fixes 27f84d3, 3fbf5b4; the sentences above remain true): the NFKC screen of the constructor /
+    build(authority=) (`checkNetloc`, YarlModel/Parse.lean) now rejects an NFKC form with '[' or ']' as well as '@'
+    ':' '/' '?' '#'; and an IDNA answer that holds a ':' is no longer stored as it is: `encodeHost` re-enters
+    `_encode_host` on it (`encodeHostA`, C16Mapped.lean: it must spell an IP literal and is stored in canonical
+    bracketed form, e.g. "[１:0:0:0:0:0:0:2]" ↦ "[1::2]"; non-ASCII text that is no IP literal is a ValueError there).
+    PARTLY CLOSED by C01_encode_host_validated_no_oracle, C01_encode_host_validated_third_shape_needed,
+    C01_with_host_no_oracle, C01_applyOp_no_oracle, C01_build_host_no_oracle, C01_encodeUrl_local_oracle,
+    C01_build_local_oracle, C01_local_oracle_of_global, C01_reachable_netloc_ascii_local,
+    C01_reachable_userinfo_ok_local, C01_str_ascii_reachable_local, C01_userinfo_chars_reachable_local,
+    C01_constructor_needs_oracle_ascii, C01_build_authority_needs_oracle_ascii, C01_constructor_needs_oracle_no_at,
+    C01_hostile_oracle_screened_on_validating_routes (C01More.lean), see C01_headline_validated_host_no_oracle,
+    C01_headline_validated_host_third_shape_needed, C01_headline_every_operation_no_oracle,
+    C01_headline_build_host_no_oracle, C01_headline_constructor_local_oracle,
+    C01_headline_build_authority_local_oracle, C01_headline_local_oracle_of_global,
+    C01_headline_str_ascii_reachable_local_oracle, C01_headline_userinfo_chars_reachable_local_oracle,
+    C01_headline_constructor_needs_oracle_ascii, C01_headline_build_authority_needs_oracle_ascii,
+    C01_headline_constructor_needs_oracle_no_at, C01_headline_hostile_oracle_screened_on_validating_routes
+    (C01HeadlineMore4.lean).  Proved: (i) DISCHARGED on the validating routes — a validated `_encode_host` (with_host,
+    build(host=)) returns ASCII text without '@' WHATEVER the oracle tables answer (the IDNA answer is screened by
+    NOT_REG_NAME, or — holding a ':' — must spell an IP literal with a screened zone), so every one of the 19
+    operations and build(host=) keep "authority and cache ASCII" and the userinfo invariant with NO oracle hypothesis;
+    (ii) on the two NON-validating routes (constructor, build(authority=)) the global hypotheses are replaced by LOCAL
+    ones, `IdnaLocalAscii` / `IdnaLocalNoAt`: IF the host name of THIS input is not ASCII and `_idna_encode` answers,
+    the answer is ASCII / has no '@' — vacuous for an ASCII host name, implied by the global hypotheses; items 1–3 and 6
+    are restated with them; (iii) these two routes NEED them IN THE MODEL: hostile tables (answer 'é'; answer '<@b'
+    with an NFKC table that is the identity, i.e. NOT consistent with the real NFKC) make `URL('http://é/')` /
+    `build(authority='é')` store 'é' and `URL('http://a＠b/')` answer raw_user '<'; the same tables are rejected on
+    the validating routes.
+    STILL OPEN: for a NON-ASCII host name given to the constructor / build(authority=) the local hypotheses remain
+    ASSUMPTIONS about the `idna` package / stdlib codec (true of CPython by the two arguments above, not inside the
+    model; not composed with `IdnaSaneAt` / `IdnaRoundTripAt` of C16Idn.lean); the witnesses of (iii) are about
+    hypothetical oracle tables, not about library behaviour.
  8. NEW (domain of C01HeadlineMore.lean).  Its theorems are over `ReachS`, not `Reach`: besides the three named side
     conditions, `ReachS.build` requires user=, password= and authority= to be Python strings (`BuildNetPy`), which
     `Reach.build` forgot (it asks this of path, query, fragment only).  Harmless — every Python `str` qualifies — but
     it means items 1–4 say nothing about a `Reach.build` step whose authority texts contain code points > 0x10FFFF
     (which exist only in the model's `Str`).
+    SHARPENED by C01_reach_build_nonpython_user_counterexample, C01_api_outside_host (C01More.lean), see
+    C01_headline_build_net_py_needed, C01_headline_api_outside_host (C01HeadlineMore4.lean).  Proved: `BuildNetPy` can
+    NOT be dropped — with the model-only code point 0x110000 as `user=` the C backend's quoter passes it through, the
+    result is `Reach`, stores a non-ASCII authority and is not `ReachS` (the Python backend drops the code point); a
+    MODEL ARTEFACT, no Python `str` contains such a code point.  Likewise `J` cannot be dropped (item 1c).  For the API
+    closure `ReachS (True ∧ IdnaLocalNoAt) ⊤ ⊥` (constructor, build with Python strings, the 18 operations other than
+    `UOp.joinRef`, join of two reachable URLs; no condition on schemes or zone ids) every URL is `Reach` and the
+    whole-string statement of item 6 holds.
+ 9. NEW (with C01More.lean).  Trusted readings introduced by items 6–8 FURTHER: `IdnaLocalAscii` / `IdnaLocalNoAt`
+    (Prop-valued, about `idnaEncode o (hostPort hi).1`, i.e. `_idna_encode` of the host name cut from the `host[:port]`
+    text — lower-cased answer of `idna.encode(…, uts46=True)` or of the stdlib fallback); `R11.NF` (visible ASCII other
+    than the nine characters "<>\^`{|}); `HostLemmas.ipRes`.  The cut `pre ++ hostText ++ suf` of item 6 is
+    EXISTENTIALLY quantified: the theorem ties `hostText` to the rendered authority (`hostText = hostinfo N`,
+    `pre ++ hostText = a ++ N`) but does not give `pre` / `suf` as functions of the URL (C01More.lean has them:
+    `R11.unsplitParts`, `R11.userinfoAt`; one computed instance in its non-vacuity section).  The proofs replace the
+    oracle table by a "tamed" one (`R11.tame`: every IDNA answer outside a character class becomes UnicodeError) and
+    show the run unchanged (`R11.reachS_tame`); that is internal to the proofs, nothing to trust.
 -/
 
 end Yarl
